@@ -111,7 +111,9 @@ def region_paragraphs(sn):
     in_rb = any(k in ("rb", "rbc", "ruby") for k in ks)
     for c in leaf.text:
       ch = Ch(c, st, (leaf.chain, "ruby-base" if in_rb else None))
-      if leaf.preserve and c == "\n":
+      if leaf.preserve and c in "\n\r":        # CR: a line terminator in both output formats, see cueparse
+        if c == "\r":
+          cur.flags.add("cr")
         cur.lines.append([])
       else:
         cur.lines[-1].append(ch)
@@ -217,7 +219,11 @@ def tokens_of(text):
 
 def compare_text(exp, cues, res, fmt, grouped):
   """C06: number, order, times and payload lines of the cues"""
-  # cues and lines without any visible character (tags only, e.g. "<i>" around a line break) carry no text: ignored
+  # a cue without any non-blank character (only tags and white space, e.g. "<i> </i>") stands for an interval in which no non-blank
+  # text is visible: the statement has no such cue.  Lines of that kind inside a cue that also holds text are ignored on both sides.
+  blank = [c for c in cues if not any(l.strip() for l in c.lines)]
+  if blank:
+    res.fail("%s:blank-cue" % fmt, "cue %s --> %s holds no non-blank text: %r" % (blank[0].begin, blank[0].end, blank[0].raw_lines))
   cues = [c for c in cues if any(l.strip() for l in c.lines)]
   for c in cues:
     keep = [i for i, l in enumerate(c.lines) if l.strip() != ""]
